@@ -32,9 +32,9 @@ ASSUMPTIONS = [
     "policy 'interactive' needs a terminal and is outside the property's quantifier",
     "the sdkconfig-policy value clause is a per-entry predicate, not a full prediction (the order of injection is an implementation detail)",
 ]
-BUDGET = {"quick": {"examples": 2400}, "thorough": {"examples": 160000, "deadline_s": 1500}}
+BUDGET = {"quick": {"examples": 6400}, "thorough": {"examples": 160000, "deadline_s": 1500}}
 
-CFG = gen.cfg(max_syms=12, p_choice=14, p_select=20, p_imply=16, p_set=16, p_wset=16)
+CFG = gen.cfg(max_syms=12, p_choice=14, p_select=20, p_imply=16, p_set=16, p_wset=16, p_multi_def=12)
 KINDS = [(55, "set"), (8, "unset"), (8, "reset"), (3, "reset_menu"), (10, "load_hand")]
 EDIT_KINDS = [(70, "set"), (15, "unset"), (15, "reset")]
 MUTATIONS = ("none", "none", "default-value", "default-cond", "range", "add-depends", "add-option", "remove-option", "conditional-prompt", "remove-member", "add-member")
@@ -185,7 +185,8 @@ def mutate(tree, mutation):
         if not cands:
             return None, "all-referenced"
         e = cands[a % len(cands)]
-        _remove(t2["entries"], e["name"])
+        while _remove(t2["entries"], e["name"]):  # every definition of the option
+            pass
         t2["order"].remove(e["name"])
         del t2["types"][e["name"]]
         return t2, f"remove-option:{e['name']}"
